@@ -117,6 +117,23 @@ class _Ctl:
 _HD = None
 
 
+def _peek(node, others):
+    """a hook may READ the graph before it refuses: whatever the library remembers from these reads (cached tuples,
+    memoised closures) must not survive the roll-back"""
+    from bigtree import DAGNode
+    try:
+        others = [o for o in others if isinstance(o, DAGNode)]
+    except TypeError:
+        others = []
+    for x in [node] + others:
+        for f in (lambda: x.children, lambda: x.parents, lambda: list(x.ancestors), lambda: list(x.descendants),
+                  lambda: x.siblings, lambda: x.is_root, lambda: x.is_leaf):
+            try:
+                f()
+            except Exception:  # noqa: BLE001
+                pass
+
+
 def _hd():
     """user subclass of DAGNode: registers every object on creation; the four documented hooks raise on demand"""
     global _HD
@@ -132,19 +149,19 @@ def _hd():
 
             def _DAGNode__pre_assign_parents(self, new_parents):
                 if HD.ctl.fp == "pre":
-                    raise core.hook_exc(getattr(HD.ctl, "op", None), "pre-parents")
+                    _peek(self, new_parents); raise core.hook_exc(getattr(HD.ctl, "op", None), "pre-parents")
 
             def _DAGNode__post_assign_parents(self, new_parents):
                 if HD.ctl.fp == "post":
-                    raise core.hook_exc(getattr(HD.ctl, "op", None), "post-parents")
+                    _peek(self, new_parents); raise core.hook_exc(getattr(HD.ctl, "op", None), "post-parents")
 
             def _DAGNode__pre_assign_children(self, new_children):
                 if HD.ctl.fc == "pre":
-                    raise core.hook_exc(getattr(HD.ctl, "op", None), "pre-children")
+                    _peek(self, new_children); raise core.hook_exc(getattr(HD.ctl, "op", None), "pre-children")
 
             def _DAGNode__post_assign_children(self, new_children):
                 if HD.ctl.fc == "post":
-                    raise core.hook_exc(getattr(HD.ctl, "op", None), "post-children")
+                    _peek(self, new_children); raise core.hook_exc(getattr(HD.ctl, "op", None), "post-children")
 
         _HD = HD
     return _HD
